@@ -211,7 +211,9 @@ fn process_dir(
                     *quit = true;
                     break;
                 }
-                if matcher_io.should_skip_current_dir() {
+                // With -depth the contents have been visited already, and
+                // walkdir would skip the rest of the *parent* directory.
+                if matcher_io.should_skip_current_dir() && !config.depth_first {
                     it.skip_current_dir();
                 }
             }
